@@ -9,7 +9,7 @@ KEYF = 'cardutil/key.py'
 VBSMODS = ['contracts.mciipm_block', 'contracts.mciipm_vbs', 'contracts.vbs_lists']
 
 ISO = 'cardutil/iso8583.py'
-ISOMODS = ['contracts.bitarray', 'contracts.iso_field', 'contracts.iso_pds', 'contracts.iso_msg', 'contracts.iso_loops']
+ISOMODS = ['contracts.bitarray', 'contracts.iso_field', 'contracts.iso_pds', 'contracts.iso_msg', 'contracts.iso_loops', 'contracts.iso_api']
 
 PROPS = {
     'C01': {
@@ -230,6 +230,12 @@ PROPS = {
     },
 }
 
+
+# properties stated over a layer that other properties establish are checked together with those (units and stand-ins)
+_DEPS = {'C03': ['C04', 'C05'], 'C09': ['C05'], 'C10': ['C07'], 'C11': ['C04'], 'C16': ['C08'], 'C17': ['C03'], 'C18': ['C03', 'C05']}
+for _k, _d in _DEPS.items():
+    PROPS[_k]['deps'] = sorted(set(PROPS[_k].get('deps') or []) | set(_d))
+PROPS['C16']['modules'] = list(PROPS['C16']['modules']) + ['contracts.iso_api']
 
 # the frame lint (contracts/lint.py: no state shared between calls or instances) backs every property's per-call contracts
 for _p in PROPS.values():
